@@ -730,6 +730,11 @@ def hybrid_facts(ctx, H):
             pl = d.target.id
             dec = d
     recs0 = [n for n in own_nodes(fn.node) if isinstance(n, ast.Assign) and any(isinstance(t, ast.Attribute) and t.attr == "padding_file" for t in n.targets) and isinstance(n.value, ast.Dict)]
+    alt = None
+    if pl is None and len(recs0) == 1 and reads:
+        alt = _gap_from_counter(ctx, H, fn, recs0[0], reads[0])
+    if alt is not None:
+        pl, dec, gap_fact = alt
     if pl is None:
         if len(recs0) == 1:
             lv = {const_str(k): v for k, v in zip(recs0[0].value.keys, recs0[0].value.values)}.get("length")
@@ -743,7 +748,10 @@ def hybrid_facts(ctx, H):
     # the decrement happens exactly once per non-empty read: same block as the leaf append
     loop = ctx.prog.parent.get(dec)
     same_iter = isinstance(loop, ast.For)
-    F["v1.gap"] = Fact("%s - (bytes read in this piece)" % repr(iv) if iv is not None and same_iter else "?init %s" % (norm(inits[0].value) if inits else "none"), dec, fn)
+    if alt is not None:
+        F["v1.gap"] = Fact(gap_fact, dec, fn)
+    else:
+        F["v1.gap"] = Fact("%s - (bytes read in this piece)" % repr(iv) if iv is not None and same_iter else "?init %s" % (norm(inits[0].value) if inits else "none"), dec, fn)
     # zero extension + padding record
     if len(pad_up) == 1:
         a = pad_up[0].args[0]
@@ -781,6 +789,42 @@ def hybrid_facts(ctx, H):
     digs = [n for n in own_nodes(fn.node) if isinstance(n, ast.Call) and isinstance(n.func, ast.Attribute) and n.func.attr == "digest" and norm(n.func.value) == acc]
     F["v1.piece"] = Fact("one digest() per piece" if len(digs) == 1 else "%d digest() calls" % len(digs), digs[0] if digs else None, fn)
     return F
+
+
+def _gap_from_counter(ctx, H, fn, rec, read):
+    """gap = piece_length - T with T a byte counter: (gap name, defining statement, fact text) or None.
+
+    T counts the bytes of *this piece* when it is set to zero once per piece (inside the loop that produces one piece per
+    iteration, or - for an iterator method - in the method body) and grows by every read's result; a counter set to zero
+    outside the piece loop counts the whole file."""
+    d = {const_str(k): v for k, v in zip(rec.value.keys, rec.value.values)}
+    lv = d.get("length")
+    if not isinstance(lv, ast.Name):
+        return None
+    gdefs = [n for n in own_nodes(fn.node) if isinstance(n, ast.Assign) and len(n.targets) == 1 and norm(n.targets[0]) == lv.id]
+    if len(gdefs) != 1 or not (isinstance(gdefs[0].value, ast.BinOp) and isinstance(gdefs[0].value.op, ast.Sub) and isinstance(gdefs[0].value.right, ast.Name)):
+        return None
+    base = H.nf(gdefs[0].value.left, fn)
+    T = gdefs[0].value.right.id
+    sz = norm(read.targets[0])
+    grows = [n for n in own_nodes(fn.node) if isinstance(n, ast.AugAssign) and isinstance(n.target, ast.Name) and n.target.id == T]
+    inits = [n for n in own_nodes(fn.node) if isinstance(n, ast.Assign) and len(n.targets) == 1 and norm(n.targets[0]) == T]
+    if len(grows) != 1 or not (isinstance(grows[0].op, ast.Add) and norm(grows[0].value) == sz) or len(inits) != 1 or norm(inits[0].value) != "0":
+        return lv.id, gdefs[0], "?%s - %s (counter %s not understood)" % (repr(base), T, T)
+    # is the counter reset for every piece?
+    def loops_around(n):
+        out = []
+        p = ctx.prog.parent.get(n)
+        while p is not None and p is not fn.node:
+            if isinstance(p, (ast.For, ast.While)):
+                out.append(p)
+            p = ctx.prog.parent.get(p)
+        return out
+    per_piece = loops_around(inits[0]) == loops_around(gdefs[0])
+    same_iter = isinstance(ctx.prog.parent.get(grows[0]), ast.For)
+    if per_piece and same_iter:
+        return lv.id, gdefs[0], "%s - (bytes read in this piece)" % repr(base)
+    return lv.id, gdefs[0], "%s - (bytes read in the whole file so far: the counter %s is not reset for every piece)" % (repr(base), T)
 
 
 SPEC_HYBRID = {
